@@ -36,70 +36,146 @@ def scan_statics(mir_text):
 SETTERS = [('mode', 2, 3, 'Mode'), ('ecl', 1, 4, 'ECL'), ('version', 3, 40, 'Version'), ('mask', 4, 8, 'Mask')]
 
 
+def make_builder(I, prog, inp):
+    """QRBuilder::new(input) through the crate's own constructor when its MIR is available (so that fields added to the
+    builder are initialised the way the crate does it), else field by field from the struct definition"""
+    f = prog.resolve('QRBuilder::new')
+    if f is not None:
+        I.stubs['<I as Into<Vec<u8>>>::into'] = lambda I_, args: args[0]
+        try:
+            b = I.call_fn(f, [inp])
+            if type(b) is L and b.tag == 'QRBuilder':
+                return b
+        except M.Unsupported:
+            pass
+        finally:
+            I.stubs.pop('<I as Into<Vec<u8>>>::into', None)
+    order = prog.structs.get('QRBuilder')
+    vals = []
+    for fld in order:
+        if fld == 'input':
+            vals.append(inp)
+        elif fld in ('ecl', 'mode', 'version', 'mask'):
+            vals.append(I.mk([0], 'enum'))
+        else:
+            raise M.Unsupported('QRBuilder has a field `%s` and its constructor could not be executed' % fld)
+    return I.mk(vals, 'QRBuilder')
+
+
 def job_history(job):
+    """one call history on ONE builder: setters and builds in any order, ending with a build.  At every build the
+    arguments handed to QRCode::new must be the input and the option state a fresh builder with the same final settings
+    has (last value set, None if never set) - whatever earlier builds returned (QRCode::new is uninterpreted and returns an
+    arbitrary Ok(QRCode with arbitrary reported options) / Err)."""
     seq, = job
     prog = worker_prog()
+    extra = worker_extra()
     res = {'evaluations': 0, 'obligations': 0, 'discharged': 0, 'failures': [], 'nontrivial': [], 'samples': [],
-           'validation': {'cases': 0, 'disagreements': 0}, 'vacuity': 0}
+           'validation': {'cases': 0, 'disagreements': 0}, 'vacuity': 0,
+           'stubs': ['QRCode::new -> arbitrary Ok(QRCode with arbitrary reported version/level/mask/mode)/Err, arguments logged']}
     I = M.Interp(prog)
     inp = I.mk([I.mk([T.var('in%d' % i, 8) for i in range(3)], 'buf'), 3], 'Vec')
-    b = I.mk([inp, I.mk([0], 'enum'), I.mk([0], 'enum'), I.mk([0], 'enum'), I.mk([0], 'enum')], 'QRBuilder')
+    b = make_builder(I, prog, inp)
+    order = prog.structs.get('QRBuilder')
+    fidx = {f: i for i, f in enumerate(order)}
     cell = I.mk([b])
     bp = Ptr(cell, 0)
     last = {}
-    for k, si in enumerate(seq):
+    items = []
+    builds = []
+    qorder = prog.structs.get('QRCode')
+
+    def stub_new(I_, args):
+        k = len(builds)
+        builds.append((list(args), dict(last)))
+        ok = T.var('build%d_ok' % k, 1)
+        fields = []
+        for f in qorder:
+            if f == 'data':
+                fields.append(I_.mk([I_.mk([T.var('b%d_m%d' % (k, j), 8)], 'Module') for j in range(4)]))
+            elif f == 'size':
+                fields.append(T.var('b%d_size' % k, 64, below=178))
+            elif f in ('version', 'ecl', 'mask', 'mode'):
+                below = {'version': 40, 'ecl': 4, 'mask': 8, 'mode': 3}[f]
+                fields.append(I_.mk([T.zext(1, 64, T.var('b%d_%s_some' % (k, f), 1)), T.var('b%d_%s' % (k, f), 8, below=below)], 'enum'))
+            else:
+                raise M.Unsupported('QRCode has an unknown field `%s`' % f)
+        qr = I_.mk(fields, 'QRCode')
+        return I_.mk([T.zext(1, 64, T.lnot(ok)), {0: I_.mk([qr]), 1: I_.mk([I_.mk([0], 'enum')])}], 'symenum')
+    I.stubs['QRCode::new'] = stub_new
+    ops = list(seq) + [4]
+    for k, si in enumerate(ops):
+        if si == 4:
+            r = I.call_fn(prog.resolve('QRBuilder::build'), [bp])
+            if r is M.DEAD:
+                items.append(('build #%d returns' % len(builds), 0))
+            continue
         name, fld, below, ty = SETTERS[si]
         v = T.var('arg%d' % k, 8, below=below)
         r = I.call_fn(prog.resolve('QRBuilder::' + name), [bp, v])
-        last[fld] = v
+        last[name] = v
         if not (type(r) is Ptr and r.c is cell and r.k == 0):
             res['failures'].append({'key': 'C14/setter-chain', 'confirmed': False, 'what': 'setter %s does not return the builder it was called on' % name})
-    items = []
+    nbuild = sum(1 for x in ops if x == 4)
+    items.append(('every build() calls QRCode::new exactly once', 1 if len(builds) == nbuild else 0))
     for name, fld, below, ty in SETTERS:
-        f = b[fld]
-        if fld in last:
-            items.append(('%s == last value set' % name, T.land(T.eq(64, f[0], 1), T.eq(8, f[1] if len(f) > 1 else 0, last[fld]))))
+        f = b[fidx[name]]
+        if name in last:
+            items.append(('%s == last value set' % name, T.land(T.eq(64, f[0], 1), T.eq(8, f[1] if len(f) > 1 else 0, last[name]))))
         else:
             items.append(('%s stays unset' % name, T.eq(64, f[0], 0)))
-    items.append(('input untouched', 1 if b[0] is inp else 0))
-    # build() borrows immutably: stub QRCode::new, compare the builder before/after and the arguments handed over
-    snap = [I.copy_val(x) for x in b]
-    got = {}
+    in_items = list(inp[0])
 
-    def stub_new(I_, args):
-        got['args'] = list(args)
-        return I_.mk([1, 0], 'enum')
-    I.stubs['QRCode::new'] = stub_new
-    I.call_fn(prog.resolve('QRBuilder::build'), [bp])
-
-    def same(x, y):
-        if type(x) is L and type(y) is L:
-            return len(x) == len(y) and all(same(p, q) for p, q in zip(x, y))
-        return x is y or x == y if not isinstance(x, T.Term) else x is y
-    items.append(('build() leaves the builder unchanged', 1 if all(same(x, y) for x, y in zip(b, snap)) else 0))
-    if 'args' in got:
-        a = got['args']
-        items.append(('build() hands the input and the four options to QRCode::new', 1 if (a[0].c is inp[0] and a[0].len == 3) else 0))
+    def is_input(buf, n):
+        return n == 3 and len(buf) >= 3 and all(x is y for x, y in zip(list(buf)[:3], in_items))
+    binp = b[fidx['input']]
+    items.append(('input untouched', 1 if (type(binp) is L and binp.tag == 'Vec' and is_input(binp[0], len(binp[0]))) else 0))
+    for k, (a, state) in enumerate(builds):
+        sl = a[0]
+        items.append(('build #%d hands the input to QRCode::new' % k, 1 if (type(sl) is SliceRef and sl.start == 0 and is_input(sl.c, sl.len)) else 0))
         for (name, fld, below, ty), pos in zip(SETTERS, (3, 1, 2, 4)):
             f = a[pos]
-            if fld in last:
-                items.append(('QRCode::new receives %s = last value set' % name, T.land(T.eq(64, f[0], 1), T.eq(8, f[1] if len(f) > 1 else 0, last[fld]))))
+            if name in state:
+                items.append(('build #%d: QRCode::new receives %s = last value set' % (k, name), T.land(T.eq(64, f[0], 1), T.eq(8, f[1] if len(f) > 1 else 0, state[name]))))
             else:
-                items.append(('QRCode::new receives %s = None' % name, T.eq(64, f[0], 0)))
-    else:
-        items.append(('build() calls QRCode::new', 0))
+                items.append(('build #%d: QRCode::new receives %s = None (as a fresh builder with the same settings would pass)' % (k, name), T.eq(64, f[0], 0)))
     pan = [('%s@%s' % (o.kind, o.where), T.implies(T.and_many(list(o.pc)), o.cond)) for o in I.obligations]
     solver = worker_solver(30000, 'z3-new', lut_mode='ite', logic='QF_BV')
     syn, nsolv, fails, unk = discharge(solver, items + pan, eval_search=0, chunk=4)
     res['obligations'] = len(items) + len(pan)
     res['evaluations'] = res['obligations']
     res['discharged'] = res['obligations'] - len(fails) - len(unk)
-    nm = '+'.join(SETTERS[i][0] for i in seq) or '(no setter)'
+    nm = '+'.join((SETTERS[i][0] if i < 4 else 'build') for i in ops)
     res['nontrivial'] = ['history %s #%d' % (nm, i) for i in range(len(items))]
-    if len(seq) == 4 and seq[0] == seq[3]:
-        res['samples'] = [{'history': nm, 'free': 'argument of every call, 3 input bytes', 'obligations': [lab for lab, _ in items]}]
+    if len(seq) == 3 and seq[0] == 4 and seq[2] == 4:
+        res['samples'] = [{'history': nm, 'free': 'argument of every setter call, 3 input bytes, outcome and reported options of every build', 'obligations': [lab for lab, _ in items][:12]}]
     for lab, model in fails[:1]:
-        res['failures'].append({'key': 'C14/setter-history', 'confirmed': False, 'what': 'after %s: %s fails (%s)' % (nm, lab, model), 'obligation': lab})
+        # native confirmation: the same history on a real builder against a fresh builder with the final settings
+        model = model or {}
+        opstr = []
+        for k, si in enumerate(ops):
+            opstr.append('b' if si == 4 else '%s%d' % ('mevk'[si], model.get('arg%d' % k, 0) % SETTERS[si][2]))
+        confirmed, what, req = False, 'after %s: %s fails symbolically; native replays agree with a fresh builder' % (nm, lab), ''
+        if extra and extra.get('native'):
+            native = OV.Native(extra['native'])
+            variants = [','.join(opstr)]
+            # the concrete setter arguments matter (e.g. a mode the input cannot be encoded in fails the build): try a few
+            rr = random.Random(len(nm))
+            for _ in range(12):
+                variants.append(','.join('b' if si == 4 else '%s%d' % ('mevk'[si], (2 if si == 0 else rr.randrange(SETTERS[si][2]))) for si in ops))
+            for inp_b in (b'0123456789', b'HELLO WORLD', b'https://example.com/', b'22', b'36'):
+                for ostr in variants:
+                    req = 'history %s %s' % (OV.hexs(inp_b), ostr)
+                    ans = native.ask(req)
+                    # (a panic here is the documented one for a forced mode that cannot represent the input: not a witness)
+                    if ans.startswith('same=false'):
+                        confirmed, what = True, 'history %s on input %r: the reused builder and a fresh builder with the same final settings build different symbols: %s  [%s]' % (
+                            ostr, inp_b, ans[11:150], lab)
+                        break
+                if confirmed:
+                    break
+            native.close()
+        res['failures'].append({'key': 'C14/builder-history', 'confirmed': confirmed, 'what': what, 'obligation': lab, 'replay': {'request': req}})
     if unk:
         raise Inconclusive('solver unknown')
     res['vacuity'] = 1
@@ -194,15 +270,18 @@ def main(argv):
                 chk.failure({'key': 'C14/native-history', 'confirmed': True, 'what': 'native builds of %r differ across histories/threads: %s' % (inp, ans[:60]),
                              'replay': {'request': 'purity %s' % OV.hexs(inp)}})
     native.close()
+    # histories over the four setters and build (op 4), each followed by a final build
     seqs = [()]
     for k in range(1, 5):
-        seqs += list(itertools.product(range(4), repeat=k))
+        seqs += list(itertools.product(range(5), repeat=k))
     if chk.tier == 'quick':
-        seqs = [s_ for s_ in seqs if len(s_) <= 3] + [s_ for s_ in seqs if len(s_) == 4 and chk.rng.random() < 0.15]
-    chk.jobs(job_history, [(s_,) for s_ in seqs], extra={})
+        seqs = [s_ for s_ in seqs if len(s_) <= 3] + [s_ for s_ in seqs if len(s_) == 4 and chk.rng.random() < 0.1]
+    native_path = chk.ov.native(chk.features)
+    chk.jobs(job_history, [(s_,) for s_ in seqs], extra={'native': native_path})
     chk.jobs(job_frame, [(v,) for v in ([0, 1] if chk.tier == 'quick' else [0, 1, 2, 6])], extra={})
     chk.cov['histories'] = len(seqs)
-    chk.bounds += ['%d setter histories (every sequence of <= 3 calls, a seed-chosen 15%% of the 256 sequences of 4 in the quick tier; all in thorough), arguments symbolic' % len(seqs),
+    chk.bounds += ['%d call histories on one builder over {mode, ecl, version, mask, build} followed by a final build (every sequence of <= 3 calls, a seed-chosen 10%% of the 625 '
+                   'sequences of 4 in the quick tier; all in thorough); setter arguments symbolic, every build returns an arbitrary Ok/Err with arbitrary reported options' % len(seqs),
                    'frame condition: static items and static allocations of the whole crate (%d functions scanned); build+render runs on V1, V2' % chk.cov['mir_functions_scanned']]
     chk.outside += ['thread schedules are not explored (no concurrency support in either engine): schedule independence is concluded from the absence of shared mutable state',
                     'ImageBuilder (PNG) rendering: third-party rasteriser, see C13']
